@@ -254,6 +254,14 @@ def make_genC(tier):
             a.update(shutdown_ramp_lower_bounds=[5.0, 3.0], shutdown_ramp_upper_bounds=[6.0, 4.0])
         if prof == "both_wide":
             a.update(start_ramp_lower_bounds=[1.0], start_ramp_upper_bounds=[4.0], shutdown_ramp_lower_bounds=[1.0], shutdown_ramp_upper_bounds=[6.0])
+        pform = ch.pick("profile_form", ["lists", "arrays", "lower_only"])
+        if pform == "arrays":       # the documented Sequence may be a float array
+            a["_profile_arrays"] = True
+        elif pform == "lower_only":  # upper bounds default to the lower bounds
+            for k_ in ("start_ramp", "shutdown_ramp"):
+                if a.get(k_ + "_lower_bounds") is not None and a.get(k_ + "_lower_bounds") == a.get(k_ + "_upper_bounds"):
+                    a.pop(k_ + "_upper_bounds")
+                    a["_profile_arrays"] = True
         mc = ch.pick("pl.max_cap", ["const", "derated", "rising"])
         if mc == "derated":    # capacity drops while the unit may be inside a profile
             a["max_cap"] = S.interval_dict(g, [((("gp", 0), ("gp", 3)), 8.0), ((("gp", 3), ("gp", T)), 4.0)])
@@ -553,10 +561,10 @@ def make_genW(tier):
         a.update(initial_kwargs(ini, step_h))
         if ini.startswith("on"):
             a["last_dispatch"] = 5.0
-        R = ch.pick("pl.min_runtime", [0, 2])
+        R = ch.pick("pl.min_runtime", [0, 2, 4])    # 4: longer than the short life times of the window menu
         if R:
             a["min_runtime"] = R * step_h
-        D = ch.pick("pl.min_downtime", [0, 2])
+        D = ch.pick("pl.min_downtime", [0, 2, 4])
         if D:
             a["min_downtime"] = D * step_h
         sc = ch.pick("pl.start_costs", [0.0, 7.0])
